@@ -271,6 +271,33 @@ func (p *Program) render(file string) string {
 		if t.run() == "when_changed" && t.VUse == "env" {
 			b.WriteString("    env: {VV: '{{.V}}', WW: '{{.W}}'}\n")
 		}
+		// the loops of this task: the same list is written literally, as a variable of words, or as a variable
+		// split at commas (rendering variants chosen by position; the specification speaks of the list of items)
+		outer := &b
+		var loopVars []string
+		forOf := func(list []string, mat [][]string) string {
+			if len(mat) > 0 {
+				return matYAML(mat)
+			}
+			simple := len(list) > 0
+			for _, it := range list {
+				if it == "" || strings.ContainsAny(it, " ,'\t") {
+					simple = false
+				}
+			}
+			k := len(loopVars) + 1
+			switch style := (len(full) + k + len(list)) % 3; {
+			case simple && style == 1:
+				loopVars = append(loopVars, fmt.Sprintf("FL%d: %s", k, yq(strings.Join(list, " "))))
+				return fmt.Sprintf("{var: FL%d}", k)
+			case simple && style == 2:
+				loopVars = append(loopVars, fmt.Sprintf("FL%d: %s", k, yq(strings.Join(list, ","))))
+				return fmt.Sprintf("{var: FL%d, split: ','}", k)
+			}
+			loopVars = append(loopVars, "")
+			return forYAML(list)
+		}
+		var b strings.Builder
 		if len(t.Deps) > 0 {
 			b.WriteString("    deps:\n")
 			for j, d := range t.Deps {
@@ -346,6 +373,16 @@ func (p *Program) render(file string) string {
 				}
 			}
 		}
+		var lv []string
+		for _, v := range loopVars {
+			if v != "" {
+				lv = append(lv, v)
+			}
+		}
+		if len(lv) > 0 {
+			fmt.Fprintf(outer, "    vars: {%s}\n", strings.Join(lv, ", "))
+		}
+		outer.WriteString(b.String())
 	}
 	return b.String()
 }
